@@ -177,6 +177,24 @@ pub fn c13_serialize_flush() {
     }
 }
 
+/// The schema-recording entry point reports writer and flush failures like `serialize`.
+#[cfg_attr(kani, kani::proof)] #[cfg_attr(kani, kani::unwind(50))]
+#[cfg_attr(kani, kani::stub(alloc::fmt::format, crate::env::fmt_stub))]
+pub fn c13_schema_flush() {
+    let x: u32 = any();
+    let fail_at: usize = any();
+    assume(fail_at <= 64);
+    let flush_fails: bool = any();
+    let mut f = Faulty::<64>::new(fail_at, flush_fails);
+    let r = x.serialize_with_schema(&mut f);
+    let n = 29 + 8 + 3 + 4;
+    match r {
+        Ok(sc) => { crate::cover!(true, "success"); core::mem::forget(sc); assert!(fail_at >= n && !flush_fails && f.len == n, "C13: serialize_with_schema reports success although the writer or flush failed"); }
+        Err(SE::WriteError) => { crate::cover!(fail_at >= n && flush_fails, "flush-only failure"); assert!(fail_at < n || flush_fails, "C13: write error without an injected failure"); }
+        Err(_) => { assert!(false, "C13: a failing writer yields WriteError"); }
+    }
+}
+
 // ---- the std layer: `impl<W: io::Write> WriteNoStd for W` -------------------------------
 
 /// io::Write that takes a symbolic, possibly short, number of bytes per call,
@@ -190,6 +208,8 @@ pub struct ShortW<const N: usize> {
 impl<const N: usize> std::io::Write for ShortW<N> {
     fn write(&mut self, b: &[u8]) -> std::io::Result<usize> {
         self.calls += 1;
+        // bound of the claim: at most 6 write calls (assumed here, before the retry loop continues)
+        assume(self.calls <= 6);
         let mode: u8 = any();
         assume(mode < 3);
         if mode == 1 {
@@ -217,7 +237,6 @@ pub fn c13_short_writes_u32() {
         let mut w = WriterWithPos::new(&mut sw);
         r = SerializeInner::_serialize_inner(&v, &mut w);
     }
-    assume(sw.calls <= 6);
     match r {
         Ok(()) => {
             crate::cover!(sw.calls > 1, "split or retried writes");
